@@ -48,6 +48,14 @@ def build(data, model=None):
     cat_start = et.catalog_lba * SECTOR if et.present and et.catalog_lba else None
     if cat_start is not None:
         am.add('eltorito.catalog', cat_start, SECTOR, 'catalog')
+    # Rock Ridge first: the placeholder of a relocated directory is a non-directory record whose extent is that directory
+    sus = dec_susp.SuspDecoder(img, data)
+    n0 = len(img.anoms)
+    if 'iso' in img.trees:
+        sus.decode_tree(img.trees['iso'])
+    am.sus = sus
+    susp_anoms = img.anoms[n0:]
+    placeholders = {k for k, i in sus.info.items() if getattr(i, 'cl', None) is not None}
     for ns, t in img.trees.items():
         if t.root is None:
             continue
@@ -57,7 +65,7 @@ def build(data, model=None):
         for d in t.dirs:
             am.add('directory', d.extent * SECTOR, up(d.size), d.path if ns != 'enhanced' else d.path)
         for path, rec in t.entries.items():
-            if rec.is_dir:
+            if rec.is_dir or id(rec) in placeholders:
                 continue
             for part in (rec.parts or [rec]):
                 if part.size == 0:
@@ -69,12 +77,7 @@ def build(data, model=None):
                 if ns != 'enhanced':
                     am.names_by_extent.setdefault(start, set()).add((ns, path))
     # Rock Ridge continuation areas
-    sus = dec_susp.SuspDecoder(img, data)
-    n0 = len(img.anoms)
-    if 'iso' in img.trees:
-        sus.decode_tree(img.trees['iso'])
-    am.sus = sus
-    for a in img.anoms[n0:]:
+    for a in susp_anoms:
         if a.rule.startswith('susp.5.1/ce'):
             am.problem(('decode', a.rule), repr(a))
     for block, off, ln, owner in sus.all_ce:
